@@ -276,7 +276,7 @@ theorem step_wait_allowed {i : Inst} (hwf : WF i) (hmno : i.maskNoOps = false) {
     step i s a = if a = 0 then transit i s else makeStep i s (a - 1) := by
   have h2 := inv2_step hwf h ha hm
   obtain ⟨hinv, _⟩ := h
-  unfold step
+  rw [step_eq]
   simp only [hd, Bool.false_eq_true, if_false]
   by_cases ha0 : a = 0
   · subst ha0
@@ -433,7 +433,7 @@ theorem opt_reachable_from {i : Inst} (hwf : WF i) (hmno : i.maskNoOps = false) 
           cases hjs : i.jssp with
           | true =>
             have hj1 : actOf i j m - 1 = j := by simp [actOf, hjs]
-            have h1' : (translate i s (actOf i j m - 1)).1 = j := by simp [translate, hjs, hj1]
+            have h1' : (translate i s (actOf i j m - 1)).1 = j := by simp [translate_eq, hjs, hj1]
             refine ⟨h1', ?_⟩
             rw [h1'] at hsel'
             obtain ⟨_, hpe', hpos', _⟩ := sel_facts hwf hinv hsel'
@@ -441,7 +441,7 @@ theorem opt_reachable_from {i : Inst} (hwf : WF i) (hmno : i.maskNoOps = false) 
             exact this
           | false =>
             have hj1 : actOf i j m - 1 = j * i.M + m := by simp [actOf, hjs]
-            simp [translate, hjs, hj1, flat_div hm, flat_mod hm]
+            simp [translate_eq, hjs, hj1, flat_div hm, flat_mod hm]
         unfold makeStep
         simp only [ho', htr.1, htr.2]
         exact agree_makeStepAt hwf hv hinv hag hsel (by rw [hno]; exact hst) (by rw [hno]; exact hσm)
@@ -712,10 +712,10 @@ theorem translate_actOf {i : Inst} (hwf : WF i) {s : State} (hinv : Inv i s) {j 
       apply hwf.uniq hjs j hj _ hr.1 hr.2 _ _ hf.1 hm _ hpos
       have h2 : 0 < s.proc (findMa i.M (fun m' => s.proc m' (s.nextOp j))) (s.nextOp j) := hf.2
       rw [hpm] at h2; exact h2
-    simp [translate, hjs, hj1, heq]
+    simp [translate_eq, hjs, hj1, heq]
   | false =>
     have hj1 : actOf i j m - 1 = j * i.M + m := by simp [actOf, hjs]
-    simp [translate, hjs, hj1, flat_div hm, flat_mod hm]
+    simp [translate_eq, hjs, hj1, flat_div hm, flat_mod hm]
 
 theorem nondelay_reachable_from {i : Inst} (hwf : WF i) (hmno : i.maskNoOps = true) {σ : Sched} {mk : Int}
     (hv : ValidSchedule i σ mk) (hea : EventAligned i σ) (hnd : NonDelay i σ) :
@@ -750,7 +750,7 @@ theorem nondelay_reachable_from {i : Inst} (hwf : WF i) (hmno : i.maskNoOps = tr
         have ha0 : actOf i j m ≠ 0 := by unfold actOf; split <;> omega
         have hdec := mu_decreases hwf h2 hd hact hmask
         have hag' : Agree i σ (step i s (actOf i j m)) := by
-          unfold step
+          rw [step_eq]
           simp only [hd, Bool.false_eq_true, if_false, ha0]
           obtain ⟨ht1, ht2, ht3⟩ := translate_actOf hwf hinv hsel
           have hms : makeStep i s (actOf i j m - 1) = makeStepAt s j (s.nextOp j) m := by
